@@ -13,6 +13,9 @@ def validate_for_dbml(model: Reference):
     for col in chain(model.col1, model.col2):
         if col.table is None:
             raise TableNotFoundError(f'Table on {col} is not set')
+    # each side must belong to a single table (raises DBMLError otherwise),
+    # the inline form never looks at table1 and would render a mixed col1
+    model._validate()
 
 
 def render_inline_reference(model: Reference) -> str:
